@@ -3,7 +3,7 @@
     All statements quantify over every schedule (list of step labels, including further calls,
     stop() and start()), every worker count and every queue capacity. *)
 From Coq Require Import List Bool.
-From VB Require Import Conc.ValidatorDefs Conc.ValidatorProofs Conc.ValidatorProgress Conc.ValidatorTermination.
+From VB Require Import Conc.ValidatorDefs Conc.ValidatorProofs Conc.ValidatorProgress Conc.ValidatorTermination Conc.RingDefs Conc.RingProofs.
 Import ListNotations.
 
 (** whenever checkPopData has returned, its verdict is the sequential one: the index of the first
@@ -79,3 +79,15 @@ Theorem C16_no_assert_fires : forall w c sched,
   forallb (sizes_ok c) sched = true -> aborted (run false sched (init w c)) = false.
 Proof. exact no_assert_fires_lemma. Qed.
 Print Assumptions C16_no_assert_fires.
+
+(** the worker queue: the validator model above abstracts tp::MPMCBoundedQueue as a bounded FIFO list.  This
+    theorem justifies the abstraction for the ring buffer as coded (cells with sequence numbers,
+    enqueue/dequeue positions, index = pos mod size): for EVERY sequence of push/pop on a fresh ring of size >= 2 it
+    answers exactly like a FIFO bounded by size - across any number of wrap-arounds never "full" with fewer than
+    size elements, never "empty" when non-empty, never spinning.
+    _partial: each push/pop runs to completion (one thread at a time); interleavings of the CAS loops of
+    concurrent producers/consumers and the 2^64 wrap of the position counters are not modelled *)
+Theorem C16_ring_refines_fifo_partial : forall (A : Type) (size : nat) (ops : list (rop A)),
+  2 <= size -> ring_run A ops (ring_init A size) = fifo_run A size ops [].
+Proof. exact ring_refines_fifo_init. Qed.
+Print Assumptions C16_ring_refines_fifo_partial.
